@@ -583,12 +583,16 @@ Property P = [] {
 	Property p;
 	p.id = "C08";
 	p.level = "exploration";
-	p.rule = "seeded histories of 1..6 prior events (26 kinds: accepted parses via buffer/stream/file+include, parses ending inside \"..\", '..', /*..*/, "
+	p.rule = "seeded histories of 1..6 prior events (28 kinds: accepted parses via buffer/stream/file+include, parses ending inside \"..\", '..', /*..*/, "
 		 "trailing backslash, syntax errors in list / function arguments / nested section, error inside an included file at depth 1..3, missing include, "
-		 "include depth exhausted, self-include, range failures via parser/setopt/setmulti, bad escape, unknown option, validator veto, free+re-init) over 1-2 clients "
-		 "x 1-2 contexts, followed by 2-4 probes from a fixed set of 11; in the thorough tier all 24 + 24*24 histories of length 1 and 2 are enumerated first, longer ones are sampled; "
+		 "include depth exhausted, self-include, range failures via parser/setopt/setmulti, bad escape, unknown option, validator veto, free+re-init, deprecated options assigned, sections opened) over 1-2 clients "
+		 "x 1-2 contexts, followed by 2-4 probes from a fixed set of 23 (also texts beginning with punctuation); rejected and accepted probes into a re-used context; in a third of the plans a "
+		 "re-entry step: while a text (also one that includes files) is parsed, the first callback releases another context, parses into another one, or creates, fills and releases a temporary one; "
+		 "in the thorough tier all histories of length 1 and 2 are enumerated first, longer ones are sampled; "
 		 "distinct = distinct event-kind sequences (the history), all non-trivial";
-	p.assumptions = {"the probe set and event texts are fixed by the generator; outcomes compared are return code, diagnostics (file,line) and the canonical dump",
+	p.assumptions = {"the probe set and event texts are fixed by the generator; outcomes compared are return code, diagnostics (file, line, formatted message) and the canonical dump",
+			 "O-trace compares values, counts and order, not the modified / reset markers (the parser sets them when it reads '=' / '+=', before the value is converted)",
+			 "O-reentry: the action of the callback touches only another context; the outcome for the context being parsed is compared with the run without the action",
 			 "O-scrub resets the scanner object's .data/.bss, cfg_yylval and errno between API calls; a correct library cannot observe that"};
 	p.probes = {"parse_begun_outside_INITIAL", "parse_failed_inside_included_file", "two_clients_interleaved", "rejected_probe_into_reused_context", "append_into_reused_context", "range_failure_trace_checked", "callback_acted_on_another_context"};
 	p.components = {{"confuse.c", "real"}, {"lexer.l (flex 2.6.4 generated)", "real"}, {"glibc stdio/strtol/strtod", "real"}, {"allocator", "stub: accounting wrappers over the real heap"},
